@@ -37,6 +37,7 @@ fn base_table() -> Vec<(&'static str, RunFn)> {
         ("C10", props::c10::run as RunFn),
         ("C11", props::c11::run as RunFn),
         ("C12", props::c12::run as RunFn),
+        ("C13", props::c13::run as RunFn),
     ]
 }
 
@@ -108,6 +109,7 @@ fn main() {
         let files = g0.regression_files();
         drop(g0);
         let mut bad = 0;
+        std::env::set_var("TACHECK_QUIET_REPLAY", "1");
         for f in &files {
             let c = replay_file(id, run, tier, seed, &verif_dir, f, false);
             if c == 1 {
